@@ -13,23 +13,51 @@ package cstate
 // from the block meta of that height, the application hash from the app-hash record of that height,
 // the validator sets and parameters from the records the state record points to.
 //@ func loadStateAtHeight(db kaidb.Database, height uint64) (r *LatestBlockState)
-//@   for C14
+//@   for C14 C01
 //@   modifies *
 //@   ensures [blockMetaFields] r != nil ==> r.LastBlockID == old(rawdb.metaAt(db, height).BlockID) && r.LastBlockTime == old(rawdb.metaAt(db, height).Header.Time) && r.LastBlockHeight == old(rawdb.metaAt(db, height).Header.Height) && r.LastBlockTotalTx == old(rawdb.metaAt(db, height).Header.NumTxs)
 //@   ensures [appHashOfThatHeight] r != nil ==> r.AppHash == rawdb.appHashAt(db, height)
+//@   atstore LatestBlockState.Validators requires [currentSetFromItsOwnRecord] result(ValidatorSetFromProto, 1) == nil ==> new.decodedFrom == rawdb.valsInfoAt(db, common.hashOfBytes(content(sp.ValidatorsInfoHash))).ValidatorSet
+//@   atstore LatestBlockState.NextValidators requires [nextSetFromItsOwnRecord] result(ValidatorSetFromProto, 1) == nil ==> new.decodedFrom == rawdb.valsInfoAt(db, common.hashOfBytes(content(sp.NextValidatorsInfoHash))).ValidatorSet
+//@   atstore LatestBlockState.LastValidators requires [lastSetFromItsOwnRecord] result(ValidatorSetFromProto, 1) == nil ==> new.decodedFrom == rawdb.valsInfoAt(db, common.hashOfBytes(content(sp.LastValidatorsInfoHash))).ValidatorSet
+//@   atstore LatestBlockState.LastHeightValidatorsChanged requires [changeHeightFromTheNextSetsRecord] new == rawdb.valsInfoAt(db, common.hashOfBytes(content(sp.NextValidatorsInfoHash))).LastHeightChanged
 
 // ---------------------------------------------------------------- C03/C01: valid extensions of the node's own chain
 // The previous block's commit is verified against the PREVIOUS validator set, for the state's chain id,
 // the state's last block id and the height just below the block; the median time is taken over that
 // same set.
 //@ func validateBlock(evidencePool EvidencePool, store Store, state LatestBlockState, block *types.Block) (err error)
-//@   for C03 C01 C13
+//@   for C03 C01 C13 C02
 //@   requires block != nil
 //@   modifies *
 //@   opt assumecallreqs
 //@   atcall Block.ValidateBasic requires [txRootAlwaysChecked] hasher != nil
 //@   atcall ValidatorSet.VerifyCommit requires [lastCommitAgainstPreviousSet] vs == state.LastValidators && chainID == state.ChainID && blockID == state.LastBlockID
 //@   atcall MedianTime requires [medianOverPreviousSet] validators == state.LastValidators
+
+// The block time is the median of the commit's timestamps weighted by voting power, taken against the
+// power actually PRESENT in the commit (absent validators carry no timestamp): the total handed to
+// WeightedMedian is the sum of the weights in the slice handed to it, and each weight is the power of
+// the validator that signed.
+//@ spec func sumW(ws []*ktime.WeightedTime, n int) int = ite(n <= 0, 0, sumW(ws, n - 1) + ite(ws[n - 1] != nil, ws[n - 1].Weight, 0))
+//@ lemma sumWFrame(ws []*ktime.WeightedTime, n int)
+//@   for C03
+//@   requires 0 <= n && n <= len(ws)
+//@   requires forall k int :: 0 <= k && k < n ==> ws[k] == old(ws[k]) && (ws[k] != nil ==> ws[k].Weight == old(ws[k].Weight))
+//@   ensures sumW(ws, n) == old(sumW(ws, n))
+//@   induction n
+//@   pattern sumW(ws, n); old(sumW(ws, n))
+//@ func MedianTime(commit *types.Commit, validators *types.ValidatorSet) (r time.Time)
+//@   for C03
+//@   uses sumWFrame
+//@   requires commit != nil && validators != nil && (forall i int :: 0 <= i && i < len(validators.Validators) ==> validators.Validators[i] != nil)
+//@   modifies nothing
+//@   atcall NewWeightedTime requires [weightIsSignerPower] weight == validator.VotingPower && time == commitSig.Timestamp
+//@   atcall WeightedMedian requires [medianAgainstPowerPresent] totalVotingPower == toInt64(sumW(weightedTimes, len(weightedTimes)))
+//@   loop 1:
+//@     invariant 0 <= iter && iter <= len(commit.Signatures) && len(weightedTimes) == len(commit.Signatures)
+//@     invariant totalVotingPower == toInt64(sumW(weightedTimes, iter))
+//@     invariant forall k int :: iter <= k && k < len(weightedTimes) ==> weightedTimes[k] == nil
 
 // ValidateBlock consults and fills the executor's validation cache; it does not write consensus state
 // (trusted frame: validateBlock reads the stores and the evidence pool).
